@@ -29,10 +29,10 @@ def run(ctx) -> None:
     ctx.rule("R2", "no catch-all staging/committing in the command templates")
     ctx.rule("R3", "exactly one commit call and one tag call per update, tag after commit, named by the new version")
     ctx.rule("R4", "update/show call _update_cfg_from_vcs unless --ignore-vcs-tag")
-    ctx.rule("R5", "prerequisite: every configured occurrence is rewritten, one entry per file (C03/R1, C03/R6)")
+    ctx.rule("R5", "prerequisite: every configured occurrence - the config file's own current_version line included - is rewritten, one entry per file (C03/R1-R6)")
     ctx.rule("R6", "prerequisite: the starting version follows the tag-scope rules under version.parse_version (C09/R1)")
     from sa.report import run_prerequisite
-    run_prerequisite(ctx, "C03", ("R1", "R6"), "R5")
+    run_prerequisite(ctx, "C03", ("R1", "R2", "R3", "R4", "R5", "R6"), "R5")
     run_prerequisite(ctx, "C09", ("R1",), "R6")
 
     upd = prog.function("cli._update")
